@@ -337,6 +337,57 @@ def rule_tau(ctx, tu):
     ctx.floor(R, 12)
 
 
+def rule_draws(ctx, tu):
+    """C07.DRAWS -- event choice and waiting time are independent: the selection threshold (r = U * a0) and the waiting time
+    (dt = log(1/U') / a0) are each computed from their own call of the uniform generator; one draw stored in a variable (or
+    passed as a parameter) and used for both makes long waits go with the first channels of the list"""
+    R = "C07.DRAWS"
+
+    def is_draw(x):
+        x = strip(x)
+        return x.get("kind") == "CXXOperatorCallExpr" and name_of(kids(x)[0]) == "operator()" and \
+            name_of(strip(kids(x)[1], casts=True)) == "uiud"
+    def draws_in(e, f):
+        """generator calls feeding expression e: written in place, or parked in a local that is read exactly once"""
+        out = [y for y in walk(e) if is_draw(y)]
+        for y in walk(e):
+            if y.get("kind") == "DeclRefExpr":
+                did = y.get("referencedDecl", {}).get("id")
+                decl = [d for d in walk(f.body) if d.get("kind") == "VarDecl" and d.get("id") == did and kids(d)]
+                if len(decl) == 1 and is_draw(kids(decl[0])[-1]):
+                    uses = [z for z in walk(f.body) if z.get("kind") == "DeclRefExpr" and z.get("referencedDecl", {}).get("id") == did]
+                    if len(uses) == 1:
+                        out.append(kids(decl[0])[-1])
+        return out
+    for cn in GILL:
+        it, dr = tu.fn(cn + "::Iterate"), tu.fn(cn + "::DrawAndApplyEvent")
+        roles = {}
+        # the threshold
+        thr = [n for n in walk(dr.body) if n.get("kind") == "VarDecl" and kids(n) and any(name_of(y) == "a0" for y in walk(n))
+               and not any(name_of(y) in ("mesh_a0r", "mesh_a0d") for y in walk(n))]
+        ctx.need(len(thr) >= 1, R, "%s: selection threshold (U * a0) not found" % dr.qual)
+        d1 = draws_in(kids(thr[0])[-1], dr)
+        ctx.check(len(d1) == 1, R, thr[0], dr.qual, text(thr[0])[:70], "threshold = its own uniform draw x a0",
+                  "the selection threshold is not computed from a generator call of its own (it takes %s): the draw is shared with "
+                  "another use" % sorted({uname(y) for y in walk(kids(thr[0])[-1]) if y.get("kind") == "DeclRefExpr"}))
+        # the waiting time
+        st = [s_ for s_ in cxa.all_stores(it.body) if s_.base and s_.base[1] == "dt" and s_.op == "="]
+        ctx.need(len(st) == 1, R, "%s: waiting-time assignment not found" % it.qual)
+        d2 = draws_in(st[0].rhs, it)
+        ctx.check(len(d2) == 1 and any(call_parts(y) and call_parts(y)[0] == "log" for y in walk(st[0].rhs)), R, st[0].node, it.qual,
+                  text(st[0].node)[:70], "dt = log(1/U)/a0 with its own uniform draw",
+                  "the waiting time is not computed from a generator call of its own: it re-uses a value drawn for something else")
+        # no draw is parked in a variable that is read more than once
+        for f in (it, dr):
+            for n in walk(f.body):
+                if n.get("kind") == "VarDecl" and kids(n) and is_draw(kids(n)[-1]):
+                    uses = [y for y in walk(f.body) if y.get("kind") == "DeclRefExpr" and
+                            y.get("referencedDecl", {}).get("id") == n.get("id")]
+                    ctx.check(len(uses) <= 1, R, n, f.qual, text(n)[:60], "a draw feeds one quantity",
+                              "one uniform draw is used %d times" % len(uses))
+    ctx.floor(R, 4)
+
+
 def run(ctx):
     tu = ctx.cx
     rule_one_event(ctx, tu)
@@ -345,10 +396,15 @@ def run(ctx):
     rule_prop(ctx, tu)
     rule_partition(ctx, tu)
     rule_tau(ctx, tu)
+    rule_draws(ctx, tu)
     # a diffusion event is one molecule leaving the source and entering the direction's neighbour, each half suppressed only
     # by the chemostat flag of its own entry (otherwise a selected event is a no-op or half an event)
     from . import c02
     c02.rule_pair(ctx, tu, "C07.PAIR")
+    # propensities count molecules: every number the stochastic engines receive is converted to the engine's units system, whose
+    # amount unit was forced to `molecule` beforehand (shared with C04.BOUNDARY)
+    from . import c04
+    c04.rule_boundary(ctx, ctx.py, tu, "C07.UNITS")
     from .. import dim
     dim.rule_stochastic(ctx, tu, "C07.DIM")
     ctx.assume("NOT decided: that waiting times and event choices follow the master-equation distribution, the Poisson "
